@@ -298,13 +298,14 @@ pub fn c14(cx: &Cx) -> i32 {
                 let mut names: BTreeMap<String, Vec<(St, Flow)>> = BTreeMap::new();
                 let mut no_ident_false = false;
                 for (st, fl) in &outs {
+                    if std::env::var("GENLINT_DEBUG_STRIP").is_ok() { eprintln!("STRIP [{}] => {}", cond_str(&st.cond), match fl { Flow::Val(v) | Flow::Ret(v) => v.short(), _ => "?".into() }); }
                     let name = st.cond.iter().find(|(a, b)| **b && a.contains("==\"")).map(|(a, _)| a[a.find("==\"").unwrap() + 3..].trim_end_matches('"').to_string());
                     match name {
                         Some(n) => names.entry(n).or_default().push((st.clone(), fl.clone())),
                         None => {
                             // multi-segment path (no single identifier) or unknown name: never stripped
                             let is_false = matches!(fl, Flow::Val(Val::Bool(false)) | Flow::Ret(Val::Bool(false)));
-                            if st.cond.iter().any(|(a, b)| a.contains("get_ident") && !*b) { no_ident_false = is_false; }
+                            if st.cond.iter().any(|(a, b)| a.contains("get_ident") && !a.contains("==") && ((a.ends_with(" is Some") && !*b) || (a.ends_with(" is None") && *b))) { no_ident_false = is_false; }
                             else if !is_false { rep.fail("DM-strip-set", &im.qual, "unknown-name-stripped", "an attribute whose name is none of derive_ex / default / debug / the five comparison names can be stripped", &site(&im), json!({"path": cond_str(&st.cond)})); }
                         }
                     }
